@@ -390,6 +390,32 @@ func runC02(r *Rand, tier string, o *Out) {
 	if tier == "thorough" {
 		n = 30000
 	}
+	// long strings and raw buffers — around the sizes at which readers and transports cut (64 KiB and its multiples) —
+	// alone with something behind them, and inside a list of values with elements behind them
+	big := 8
+	if tier == "thorough" {
+		big = 60
+	}
+	for i := 0; i < big; i++ {
+		size := r.Pick(65535, 65536, 65537, 70000, 100000, 131072, 131073, 200001)
+		kind := []string{"r", "s"}[r.Intn(2)]
+		b := make([]byte, size)
+		for j := range b {
+			b[j] = byte(97 + (j*7+i)%23)
+		}
+		g := &gval{kind: kind, b: b}
+		if r.Bool() {
+			g = &gval{kind: "L", elems: []*gval{genGVal(r, 0), g, genGVal(r, 0), {kind: "s", b: []byte("after")}}}
+		}
+		enc := g.encode()
+		tail := r.Bytes(1 + r.Intn(4))
+		res := o.Do("P", "val.read "+hx(append(append([]byte{}, enc...), tail...)), true)
+		want := fmt.Sprintf("ok %s rest=%d re=%s", g.render(), len(tail), hx(enc))
+		o.Count("val:long-" + kind)
+		if res != want {
+			o.Fail("dynamic value does not round-trip: long "+kind, fmt.Sprintf("val.read (%d bytes of %s) => %s…", size, kind, tail2(res, 80)))
+		}
+	}
 	for i := 0; i < n; i++ {
 		switch k := r.Intn(100); {
 		case k < 45: // dynamic value trees: decode = original, exact consumption, identical re-encoding
@@ -434,6 +460,13 @@ func runC02(r *Rand, tier string, o *Out) {
 			o.Count("val:mutated")
 		}
 	}
+}
+
+func tail2(s string, n int) string {
+	if len(s) > n {
+		return s[:n]
+	}
+	return s
 }
 
 func c02Why(g *gval) string {
